@@ -23,6 +23,8 @@ let eval (input : Sx.t) (obs : Sx.t) : Sx.t list * bool * bool * string =
     | "map", [i; vty; id] -> reg (Sx.int_of i) (Sx.int_of vty) (Sx.int_of id); Sx.L [Sx.A "ok"]
     | "mapto", [i; _; id; target] -> reg (Sx.int_of i) (Sx.int_of target) (Sx.int_of id); Sx.L [Sx.A "ok"]
     | "set", [i; key; _; id] -> reg (Sx.int_of i) (Sx.int_of key) (Sx.int_of id); Sx.L [Sx.A "ok"]
+    | "setnil", [i; key] ->      (* Set(type, reflect.Value{}): the key is in the map, its value is not valid *)
+        scopes.(Sx.int_of i) <- register_invalid scopes.(Sx.int_of i) (nat_of_int (Sx.int_of key)); Sx.L [Sx.A "ok"]
     | "value", [i; t] ->
         (match value (chain (Sx.int_of i)) (Sx.int_of t) with
          | [] -> Sx.L [Sx.A "none"]
@@ -56,10 +58,10 @@ let eval (input : Sx.t) (obs : Sx.t) : Sx.t list * bool * bool * string =
         nontrivial := true;
         let app_scope = List.fold_left (fun s m -> match Sx.args m with
             | [vty; id] -> register s (nat_of_int (Sx.int_of vty)) (nat_of_int (Sx.int_of id)) | _ -> s)
-            [(nat_of_int 103, nat_of_int (-1 + 0)); (nat_of_int 104, nat_of_int 0); (nat_of_int 105, nat_of_int 0)] (Sx.args app) in
+            [(nat_of_int 103, Some (nat_of_int (-1 + 0))); (nat_of_int 104, Some (nat_of_int 0)); (nat_of_int 105, Some (nat_of_int 0))] (Sx.args app) in
         let ob_reqs = (match Sx.tag o with "reqres" -> Sx.args o | _ -> []) in
         Sx.L (Sx.A "reqres" :: List.mapi (fun ri r ->
-          let rs = ref [(nat_of_int 100, nat_of_int 0); (nat_of_int 101, nat_of_int 0); (nat_of_int 102, nat_of_int 0)] in
+          let rs = ref [(nat_of_int 100, Some (nat_of_int 0)); (nat_of_int 101, Some (nat_of_int 0)); (nat_of_int 102, Some (nat_of_int 0))] in
           let ob = (try Sx.args (List.nth ob_reqs ri) with _ -> []) in
           Sx.L (Sx.A "r" :: List.mapi (fun hi h ->
             let want = Sx.int_of (List.hd (Sx.args (Sx.field "want" h))) in
